@@ -46,6 +46,21 @@ pub fn iretq_case(r: &mut Rep, rip: u64, cs: u16, fl: u64, rsp: u64, ss: u16) {
     if !ok {
         r.viol("C13|InterruptStackFrameValue::iretq|does-not-transfer-to-exactly-the-frame", &case, &format!("{:x?}", ev));
     }
+    // the same frame built through the wrapper type's constructor and used through Deref
+    let w = x86_64::structures::idt::InterruptStackFrame::new(VirtAddr::new(rip), SegmentSelector(cs), RFlags::from_bits_retain(fl), VirtAddr::new(rsp), SegmentSelector(ss));
+    let fields = (w.instruction_pointer.as_u64(), w.code_segment.0, w.cpu_flags.bits(), w.stack_pointer.as_u64(), w.stack_segment.0);
+    if fields != (rip, cs, fl, rsp, ss) {
+        r.viol("C13|InterruptStackFrame::new|fields-are-not-the-arguments", &case, &format!("{:x?}", fields));
+    }
+    cpu().clear_events();
+    let vp: *const InterruptStackFrameValue = &*w;
+    let res = run_stepped(|| unsafe { call_until_iretq(do_iretq, vp) });
+    cpu().iret_cont = 0;
+    let ev = cpu().evs();
+    let ok = res.is_ok() && ev.len() == 1 && matches!(ev[0], Ev::Iretq(a, b, c, d, e) if a == rip && b & 0xffff == cs as u64 && c == fl && d == rsp && e & 0xffff == ss as u64);
+    if !ok {
+        r.viol("C13|InterruptStackFrame(new)::iretq|does-not-transfer-to-exactly-the-frame", &case, &format!("{:x?}", ev));
+    }
 }
 
 // ------------------------------------------------------------------ handler entry with arbitrary frame contents (emulated iretq)
